@@ -1559,37 +1559,12 @@ impl<C: BgpConfig + Send> Session<C> {
                 //- changes its state to Idle.
                 self.set_state(State::Idle);
             }
-            (S::OpenConfirm, E::BgpOpen(_)) => {
-                // If the local system receives a valid OPEN message (BGPOpen
-                // (Event 19)), the collision detect function is processed per
-                //    Section 6.8.  If this connection is to be dropped due to
-                //    connection collision, the local system:
-
-                //TODO implement the collision resolution
-                todo!();
-                       
-                //- sends a NOTIFICATION with a Cease,
-                //self.disconnect(DisconnectReason::Collision).await;
-
-                //- sets the ConnectRetryTimer to zero,
-                self.connect_retry_timer.stop_and_reset();
-
-                //- releases all BGP resources,
-                // TODO something?
-
-                //- drops the TCP connection (send TCP FIN),
-                // TODO tokio
-
-                //- increments the ConnectRetryCounter by 1,
-                self.increase_connect_retry_counter();
-
-                //- (optionally) performs peer oscillation damping if the
-                //  DampPeerOscillations attribute is set to TRUE, and
-                //  TODO once DampPeerOscillations is implemented
-
-                //- changes its state to Idle.
-                self.set_state(State::Idle);
-            }
+            // A valid OPEN (BGPOpen, Event 19) in OpenConfirm triggers the
+            // collision detection of Section 6.8. A Session tracks a single
+            // connection, so there is nothing to resolve: a second OPEN on
+            // that connection is an unexpected message and takes the FSM
+            // error path below.
+            // TODO implement the collision resolution
             (S::OpenConfirm, E::BgpHeaderErr | E::BgpOpenMsgErr) => {
                 //- sends a NOTIFICATION message with the appropriate error
                 //code,
@@ -1627,6 +1602,7 @@ impl<C: BgpConfig + Send> Session<C> {
                 E::ConnectRetryTimerExpires |
                 E::DelayOpenTimerExpires |
                 //E::IdleHoldTimerExpires |
+                E::BgpOpen(_) |
                 E::BgpOpenWithDelayOpenTimerRunning(_) |
                 E::UpdateMsg |
                 E::UpdateMsgErr
@@ -1740,11 +1716,10 @@ impl<C: BgpConfig + Send> Session<C> {
                 // TODO implement collision detection.
                 todo!()
             }
-            (S::Established, E::BgpOpen(_)) => {
-                todo!()
-                // once CollisionDetectEstablishedState is implemented, things
-                // need to happen here
-            }
+            // (S::Established, E::BgpOpen(_)): once
+            // CollisionDetectEstablishedState is implemented, things need to
+            // happen here. Until then an OPEN on the established connection
+            // is an unexpected message: FSM error path below.
             // optional:
             //(S::Established, E::OpenCollisionDump) => { todo!() }
             (S::Established,
@@ -1823,6 +1798,7 @@ impl<C: BgpConfig + Send> Session<C> {
                 E::ConnectRetryTimerExpires |
                 E::DelayOpenTimerExpires |
                 //E::IdleHoldTimerExpires |
+                E::BgpOpen(_) |
                 E::BgpOpenWithDelayOpenTimerRunning(_) |
                 E::BgpHeaderErr |
                 E::BgpOpenMsgErr
